@@ -114,6 +114,11 @@ fn tap_cases(base: &MpcCase, corrupt: usize) -> Vec<Case> {
     v.push(mk("beaver_e", None, "tap:beaver_e", 2));
     v.push(mk("fashare_dm", Some(0), "tap:fashare_dm", 1));
     v.push(mk("fashare_dm", None, "tap:fashare_dm", 1));
+    for a in [TapAction::Bytes(ByteMut::Empty), TapAction::Bytes(ByteMut::Truncate(1)), TapAction::Bytes(ByteMut::Truncate(17)), TapAction::Bytes(ByteMut::Extend(16))] {
+        let mut c = mk("fashare_dm_vec", Some(0), "tap:fashare_dm_vec", 1);
+        c.attack.taps[0].action = a;
+        v.push(c);
+    }
     if corrupt != base.p_eval {
         for w in 0..base.circ.insts.len() {
             if matches!(base.circ.insts[w].1, GOp::And(..)) {
@@ -191,6 +196,9 @@ fn rush_cases(base: &MpcCase, corrupt: usize, msgs: &[crate::sim::net::MsgRec]) 
         // two consecutive symmetric rounds (a commitment round and its opening) both reflected
         if let Some(l2) = labels.get(li + 1).filter(|l2| is_sym(l2)) {
             sets.push((li, vec![l.clone(), l2.clone()]));
+            if let Some(l3) = labels.get(li + 2).filter(|l3| is_sym(l3)) {
+                sets.push((li, vec![l.clone(), l2.clone(), l3.clone()]));
+            }
         }
     }
     for (li, ls) in sets {
@@ -257,6 +265,39 @@ pub fn enumerate_cases(base: &MpcCase, corrupt: usize, tree_cap: usize, tier: Ti
             cases.push(mk(MsgMut::Bytes(bm), Target::SenderIdx(k)));
         }
         cases.push(mk(MsgMut::Drop, Target::SenderIdx(k)));
+        if let Some(crate::wire::Val::Seq(elems)) = decode(m) {
+            // the same leaf altered in two elements of one message (checks aggregated by XOR), and
+            // one element / every element with all its leaves zeroed or set to ones (a value that a
+            // receiver could mistake for "nothing to verify")
+            let present: Vec<usize> = elems.iter().enumerate().filter(|(_, e)| !matches!(e, crate::wire::Val::Opt(None))).map(|(i, _)| i).collect();
+            if present.len() >= 2 {
+                let (a, b) = (present[0], present[present.len() - 1]);
+                let mut la = vec![];
+                flip_leaves(&elems[a], &mut vec![a], &mut la);
+                for (pa, mu) in la.iter().take(6) {
+                    let mut pb = pa.clone();
+                    pb[0] = b;
+                    cases.push(mk(MsgMut::Multi(vec![(pa.clone(), mu.clone()), (pb, mu.clone())]), Target::SenderIdx(k)));
+                }
+            }
+            for fill in [TreeMut::Zero, TreeMut::Ones] {
+                let mut all = vec![];
+                for &i in present.iter().take(8) {
+                    let mut l = vec![];
+                    flip_leaves(&elems[i], &mut vec![i], &mut l);
+                    let one: Vec<(Vec<usize>, TreeMut)> = l.into_iter().map(|(p, _)| (p, fill.clone())).collect();
+                    if i == present[0] || Some(&i) == present.last() {
+                        cases.push(mk(MsgMut::Multi(one.clone()), Target::SenderIdx(k)));
+                    }
+                    all.extend(one);
+                }
+                if !all.is_empty() && (online || tier == Tier::Thorough) {
+                    let mut c = mk(MsgMut::Multi(all), Target::SenderIdx(k));
+                    c.repeat = repeat;
+                    cases.push(c);
+                }
+            }
+        }
         if let Some(v) = decode(m) {
             for p in paths(&v, tree_cap) {
                 let node = crate::wire::get(&v, &p).unwrap();
@@ -290,7 +331,7 @@ pub fn test_case(case: &Case) -> Result<CaseInfo, Fail> {
     let mut consumed_any = false;
     let mut classes = vec![];
     for rep in 0..case.repeat.max(1) {
-        let run = run_attack(a, &ExecCfg { record_probes: false, step_budget: 400_000 });
+        let run = run_attack(a, &ExecCfg { record_probes: false, step_budget: 400_000, slow_sends: false });
         let res = &run.res;
         if let Err(e) = soundness(a, &res.outcomes) {
             let mclass = a.faults.first().map(|f| crate::checks::c08::tree_mut_name(&f.mutation)).unwrap_or_else(|| "tap".into());
@@ -384,7 +425,7 @@ fn spread_inputs(n: usize, corrupt: usize, code: usize, cbits: usize) -> Vec<Vec
 
 pub fn run(tier: Tier, seed: u64) -> i32 {
     let ctx = Ctx::new("C02", tier, seed, "fault_enumeration");
-    ctx.set_rule("systematic enumeration: corrupted party = each single party (as evaluator and as garbler, n=2 all role assignments, n=3 sampled; output set with and without the cheater) x every message it sends x value-changing and omitting mutations on the decoded value tree (every bool flipped, every Option toggled, every 128-bit field bit-flipped/randomised, every sequence shortened/emptied at each nesting level), bit flips / truncation on the raw bytes, drops, per-recipient and all-recipient (n=3), plus armed taps (consistent lies about own input [negative control], own d-value share, own Beaver d/e share, garbled row share bit, attacker-chosen garbled row plaintext [value bit / MAC / label bit flipped, MAC vector of every length], aShare decommitment), plus a rushing cheater (n=2; n=3 in thorough): in every symmetric round it waits for the honest messages and answers with their XOR / reflection, alone and combined with a value change in one of the three message kinds sent before that round; honest inputs enumerated (rotating per case in quick, exhaustive in thorough); online-phase omissions repeated 4x because their effect depends on a coin; oracle: allowed set {f(x_honest, x')} by exhaustive enumeration of the cheater's input bits with the clear-text interpreter; every honest Ok must lie in it and all honest Oks agree; non-trivial = altered message consumed by an honest party (or tap/drop) and allowed set a strict subset of {0,1}^out; evaluations counts engine executions");
+    ctx.set_rule("systematic enumeration: corrupted party = each single party (as evaluator and as garbler, n=2 all role assignments, n=3 sampled; output set with and without the cheater) x every message it sends x value-changing and omitting mutations on the decoded value tree (every bool flipped, every Option toggled, every 128-bit field bit-flipped/randomised, every sequence shortened/emptied at each nesting level; the same leaf altered in two elements of one message; one element / all elements zeroed or set to ones), bit flips / truncation on the raw bytes, drops, per-recipient and all-recipient (n=3), plus armed taps (consistent lies about own input [negative control], own d-value share, own Beaver d/e share, garbled row share bit, attacker-chosen garbled row plaintext [value bit / MAC / label bit flipped, MAC vector of every length], aShare decommitment), plus a rushing cheater (n=2; n=3 in thorough): in every symmetric round - and in every two or three consecutive symmetric rounds (a commitment round and its openings) - it waits for the honest messages and answers with their XOR / reflection, alone and combined with a value change in one of the three message kinds sent before that round; honest inputs enumerated (rotating per case in quick, exhaustive in thorough); online-phase omissions repeated 4x because their effect depends on a coin; oracle: allowed set {f(x_honest, x')} by exhaustive enumeration of the cheater's input bits with the clear-text interpreter; every honest Ok must lie in it and all honest Oks agree; non-trivial = altered message consumed by an honest party (or tap/drop) and allowed set a strict subset of {0,1}^out; evaluations counts engine executions");
     ctx.assume("single corrupted party; adversary = honest code + outbound proxy + taps (DESIGN 2.3)");
     let all = match all_cases(tier, seed) {
         Ok(a) => a,
